@@ -444,3 +444,73 @@ def run_schedule(cfg, choices, fine=False, budget=None):
         'final_nsn': intf.__dict__.get('_c14_nsn'),
         'final_sseq': sess.__dict__.get('_c14_sq'),
     }
+
+
+def keepalive_tie(interval=7):
+    """Tie for "the keep-alive is one more thread issuing Get Device ID through the same
+    interface": run the REAL establish_session (single-threaded) against a scripted BMC
+    with the module global `threading` of rmcp.py shimmed, and look at what it hands to
+    call_repeatedly.  -> (ok, details)"""
+    from pyipmi.session import Session
+    from pyipmi.interfaces import rmcp as R
+
+    inbound = 0x01020304
+    sid = 0x55667788
+
+    class Sock:
+        def __init__(self):
+            self.pending, self.cmds = [], []
+
+        def settimeout(self, t):
+            pass
+
+        def sendto(self, pdu, addr):
+            b = bytes(pdu)
+            if b[3] == 6:      # ASF ping -> pong
+                self.cmds.append('ping')
+                self.pending.append(bytes([6, 0, 0xff, 6]) + (4542).to_bytes(4, 'big') + bytes([0x40, b[9], 0, 16])
+                                    + (4542).to_bytes(4, 'big') + bytes(4) + bytes([0x81, 0]) + bytes(6))
+                return
+            p = parse_tx(b)
+            self.cmds.append(p['cmd'])
+            data = {0x38: [0, 0x0e, 0x10, 0, 1, 0, 0, 0, 0],
+                    0x39: [0] + list(sid.to_bytes(4, 'little')) + list(range(16)),
+                    0x3a: [0, 4] + list(sid.to_bytes(4, 'little')) + list(inbound.to_bytes(4, 'little')) + [4],
+                    0x3b: [0, 4]}[p['cmd']]
+            h = [p['rq_sa'], ((p['netfn'] | 1) << 2) | p['rq_lun']]
+            h.append(csum(h))
+            r = [p['rs_sa'], (p['seq'] << 2) | p['rs_lun'], p['cmd']] + data
+            r.append(csum(r))
+            msg = bytes(h + r)
+            self.pending.append(bytes([6, 0, 0xff, 7, 0]) + bytes(8) + bytes([len(msg)]) + msg)
+
+        def recvfrom(self, n):
+            if not self.pending:
+                raise socket.timeout('timed out')
+            return (self.pending.pop(0), ('bmc', 623))
+
+    intf = R.Rmcp(keep_alive_interval=interval)
+    intf._sock = Sock()
+    sess = Session()
+    sess.set_session_type_rmcp('bmc', 623)
+    sess.set_auth_type_user('admin', 'secret')
+    cap, waits = [], []
+    real = R.threading
+    R.threading = ShimThreading(real, 0, cap, waits)
+    try:
+        intf.establish_session(sess)
+    finally:
+        R.threading = real
+    d = {'threads_created': len(cap), 'exchanges': intf._sock.cmds}
+    if len(cap) != 1 or not callable(cap[0]):
+        return False, d
+    loop = cap[0]
+    fv = dict(zip(loop.__code__.co_freevars, [c.cell_contents for c in (loop.__closure__ or ())]))
+    func = fv.get('func')
+    d.update({'interval': fv.get('interval'), 'func': getattr(func, '__name__', repr(func)), 'args': repr(fv.get('args')),
+              'activated': sess.activated, 'sequence_number': sess.sequence_number})
+    ok = (func == intf._get_device_id and fv.get('interval') == interval and fv.get('args') == ()
+          and sess.activated is True and intf._session is sess and sess.sequence_number == inbound + 1
+          and isinstance(intf.transaction_lock, type(real.Lock())))
+    # sequence_number == inbound + 1: Set Session Privilege Level was sent after activation
+    return ok, d
